@@ -70,7 +70,7 @@ def build_args(argv):
 # ---------------------------------------------------------------------------------------------------------------
 # file generation (shared description: see tools/props/c08.py gen_lines)
 
-def render_line(lineno, nfields, flavor, ncols, rng):
+def render_line(lineno, nfields, flavor, ncols, rng, pad=0):
     """One data line with exactly `nfields` csv fields (0 = blank line).  Always draws the same number of values."""
     f1 = rng.randint(0, 3)
     f2 = rng.randint(0, 6)
@@ -79,6 +79,8 @@ def render_line(lineno, nfields, flavor, ncols, rng):
     label = (1 if f1 >= 2 else 0) if noise < 0.7 else rng.randint(0, 1)
     feats = (["a%d" % f1, "b%d" % f2] + ["c%d" % e for e in extra])[:max(0, ncols - 2)]
     cells = ["r%d" % lineno] + feats + [str(label)]
+    if pad and len(cells) > 1:                   # longer rows (scale files): the same suffix on every row, categories unchanged
+        cells[1] = cells[1] + "_" * pad
     if nfields == 0:
         return ""
     if nfields < len(cells):
@@ -98,6 +100,7 @@ def write_file(case, path):
     rng = random.Random(case["seed"])
     ncols = len(case["cols"])
     eol = "\r\n" if case.get("crlf") else "\n"
+    pad = int(case.get("pad", 0))
     lineno = 0
     with open(path, "w", encoding="latin1", newline="") as f:
         f.write(",".join(case["cols"]) + eol)
@@ -106,11 +109,15 @@ def write_file(case, path):
             for j in range(count):
                 lineno += 1
                 last = (si == nseg - 1 and j == count - 1)
-                ln = render_line(lineno, nfields, flavor, ncols, rng)
+                ln = render_line(lineno, nfields, flavor, ncols, rng, pad)
                 if last and not case.get("trailing_newline", True) and ln != "":
                     f.write(ln)
                 else:
                     f.write(ln + eol)
+    if case.get("gzip"):                         # a gzipped copy next to it (only reachable through the direct entry)
+        import gzip
+        with open(path, "rb") as src, gzip.open(path + ".gz", "wb", compresslevel=1) as dst:
+            shutil.copyfileobj(src, dst)
     return lineno
 
 
@@ -356,7 +363,7 @@ def run_case(case, cdir, keep=False):
                 obs["exit"] = "SystemExit(%s)" % (e.code,)
         else:
             info = tr.get_dataset_info(args)
-            eim_wrapper(input_file=info.data_path, fw_col_mapping=info.fw_map, column_descriptions=info.column_names,
+            eim_wrapper(input_file=info.data_path + (".gz" if case.get("gzip") else ""), fw_col_mapping=info.fw_map, column_descriptions=info.column_names,
                         numeric_column_types=info.column_types, args=args, data_encoding=info.encoding,
                         cpu_pool=pool, delimiter=info.col_delimiter, logger=caplog)
             obs["exit"] = "direct"
